@@ -53,12 +53,12 @@ var c07Layouts = []string{
 
 func (c *c07Case) source() string {
 	esc := func(s string) string { return strings.ReplaceAll(s, "\"", "\\\"") }
-	return "gauge ts\ngauge v\ntext w\ngauge f\ncounter n\n" +
-		"/^A (?P<d>.+)$/ {\n  strptime($d, \"" + esc(c.Layout1) + "\")\n  ts = timestamp()\n  v = 1\n  w = \"same\"\n  f = 0.5\n  n++\n}\n" +
-		"/^B (?P<e>.+)$/ {\n  strptime($e, \"" + esc(c.Layout2) + "\")\n  ts = timestamp()\n  v = 2\n  w = \"same\"\n  f = 0.5\n  n++\n}\n" +
-		"/^T (?P<d1>[^|]+)\\|(?P<d2>.+)$/ {\n  strptime($d1, \"" + esc(c.Layout1) + "\")\n  strptime($d2, \"" + esc(c.Layout2) + "\")\n  ts = timestamp()\n  v = 5\n  w = \"same\"\n  f = 0.5\n  n++\n}\n" +
-		"/^S (?P<n>-?\\d+)$/ {\n  settime($n)\n  ts = timestamp()\n  v = 3\n  w = \"same\"\n  f = 0.5\n  n++\n}\n" +
-		"/^N/ {\n  ts = timestamp()\n  v = 4\n  w = \"same\"\n  f = 0.5\n  n++\n}\n"
+	return "gauge ts\ngauge v\ntext w\ngauge f\ncounter n\nhistogram hq buckets 1, 2\nhistogram hb buckets 1, 2\n" +
+		"/^A (?P<d>.+)$/ {\n  strptime($d, \"" + esc(c.Layout1) + "\")\n  ts = timestamp()\n  v = 1\n  w = \"same\"\n  f = 0.5\n  hq = 1.5\n  hb = float(\"NaN\")\n  n++\n}\n" +
+		"/^B (?P<e>.+)$/ {\n  strptime($e, \"" + esc(c.Layout2) + "\")\n  ts = timestamp()\n  v = 2\n  w = \"same\"\n  f = 0.5\n  hq = 1.5\n  hb = float(\"NaN\")\n  n++\n}\n" +
+		"/^T (?P<d1>[^|]+)\\|(?P<d2>.+)$/ {\n  strptime($d1, \"" + esc(c.Layout1) + "\")\n  strptime($d2, \"" + esc(c.Layout2) + "\")\n  ts = timestamp()\n  v = 5\n  w = \"same\"\n  f = 0.5\n  hq = 1.5\n  hb = float(\"NaN\")\n  n++\n}\n" +
+		"/^S (?P<n>-?\\d+)$/ {\n  settime($n)\n  ts = timestamp()\n  v = 3\n  w = \"same\"\n  f = 0.5\n  hq = 1.5\n  hb = float(\"NaN\")\n  n++\n}\n" +
+		"/^N/ {\n  ts = timestamp()\n  v = 4\n  w = \"same\"\n  f = 0.5\n  hq = 1.5\n  hb = float(\"NaN\")\n  n++\n}\n"
 }
 
 func c07Loc(zone string) (*time.Location, error) {
@@ -186,10 +186,12 @@ func runC07x(c c07Case) (*vstat.Failure, c07Res) {
 				wT, _ := c07Time(obj, "w")
 				fT, _ := c07Time(obj, "f")
 				nT, _ := c07Time(obj, "n")
+				hqT, _ := c07Time(obj, "hq")
+				hbT, _ := c07Time(obj, "hb")
 				for _, dt := range []struct {
 					n string
 					t int64
-				}{{"ts", tsTime}, {"v", vTime}, {"w (text, same value every line)", wT}, {"f (float, same value every line)", fT}, {"n (counter)", nT}} {
+				}{{"ts", tsTime}, {"v", vTime}, {"w (text, same value every line)", wT}, {"f (float, same value every line)", fT}, {"n (counter)", nT}, {"hq (histogram)", hqT}, {"hb (histogram, observing NaN)", hbT}} {
 					if dt.t != want.UnixNano() {
 						return vstat.Failf("datum-stamp:"+what, "%s: datum %s carries %v, want %v", where, dt.n, time.Unix(0, dt.t).UTC(), want.UTC())
 					}
@@ -280,7 +282,9 @@ func runC07x(c c07Case) (*vstat.Failure, c07Res) {
 			wT, _ := c07Time(obj, "w")
 			fT, _ := c07Time(obj, "f")
 			nT, _ := c07Time(obj, "n")
-			for _, dt := range []int64{tsTime, vTime, wT, fT, nT} {
+			hqT, _ := c07Time(obj, "hq")
+			hbT, _ := c07Time(obj, "hb")
+			for _, dt := range []int64{tsTime, vTime, wT, fT, nT, hqT, hbT} {
 				if dt < t0.UnixNano() || dt > t1.UnixNano() {
 					return vstat.Failf("default-datum-stamp", "%s: datum carries %v, outside the processing interval [%v,%v]", where, time.Unix(0, dt).UTC(), t0.UTC(), t1.UTC()), res
 				}
@@ -299,7 +303,7 @@ func runC07x(c c07Case) (*vstat.Failure, c07Res) {
 }
 
 func TestC07(t *testing.T) {
-	st := vstat.New("C07", "template programs with strptime (one of two layouts per line, or both), settime and timestamp(), layouts from a family of Go reference layouts, values made by formatting random instants (1970-2200, plus yearless) with the layout, corrupted variants, and repeats across lines and across the two layouts, now and then 64-160 lines with distinct timestamps between two lines that carry the same one; override zone in {none, UTC, fixed offsets, tz names} x syslog-current-year on/off; expected instants computed with the Go standard library independently of earlier lines; non-trivial = a successful strptime/settime whose instant is more than a day from now; distinct by the whole case")
+	st := vstat.New("C07", "template programs with strptime (one of two layouts per line, or both), settime and timestamp(), writing a gauge, a text, a float, a counter and two histograms (one observing NaN) on every line, layouts from a family of Go reference layouts, values made by formatting random instants (1970-2200, plus yearless) with the layout, corrupted variants, and repeats across lines and across the two layouts, now and then 64-160 lines with distinct timestamps between two lines that carry the same one; override zone in {none, UTC, fixed offsets, tz names} x syslog-current-year on/off; expected instants computed with the Go standard library independently of earlier lines; non-trivial = a successful strptime/settime whose instant is more than a day from now; distinct by the whole case")
 	st.Assumptions = []string{"the statement defines the result by time.Parse / time.ParseInLocation; the harness calls them directly", "datum stamps are compared only for instants representable in int64 nanoseconds (1679-2261); the reserved zero instant is skipped", "wall-clock results are bracketed by reads before and after the line"}
 	runRaw := func(raw json.RawMessage) *vstat.Failure {
 		c, err := vstat.JSON[c07Case](raw)
